@@ -43,6 +43,7 @@ type HarnessInfo struct {
 	POLoop   int
 	ReplayInterp bool
 	NoBlock  bool
+	Relabel  map[string]string
 	Twin     bool // vacuity twin: the harness is built to violate; a run in which it does not is broken
 	BlockOK  bool
 }
@@ -218,6 +219,14 @@ func Load(groups []string) (*Loaded, error) {
 					h.NoBlock = true
 				case "twin":
 					h.Twin = true
+				case "relabel":
+					f := strings.Fields(m[2])
+					if len(f) == 2 {
+						if h.Relabel == nil {
+							h.Relabel = map[string]string{}
+						}
+						h.Relabel[f[0]] = f[1]
+					}
 				case "replay":
 					h.ReplayInterp = strings.TrimSpace(m[2]) == "interp"
 				case "poloop":
